@@ -31,7 +31,7 @@ man = {
               'baseline_off_cmd': 'cd /repo && /venv/bin/python -m pytest -ra -q -p no:cacheprovider --timeout=900 --continue-on-collection-errors',
               'source_commits': [], 'add_only': True},
     'engines': [{'name': 'lean4+correspondence', 'path': 'lean/ + harness/', 'serves_properties': [c['property_id'] for c in checks],
-                 'kind_free_text': 'Lean 4 theorems about a hand-written executable model (lean/FxpVerif), tied to /repo on every run by a differential correspondence check through the public API (harness/), with verified checkers as oracle'}],
+                 'kind_free_text': 'Lean 4 theorems about a hand-written executable model (lean/FxpVerif), tied to /repo on every run (a) by a differential correspondence check through the public API (harness/), with verified checkers as oracle, and (b) for the integer decision rules of functions.py (growth rules, sizing policies, carrier selection) by a translator that regenerates their Lean definitions from the source and re-checks the tie theorems (lean/FxpVerif/Gen)'}],
     'checks': checks,
     'not_applicable': na,
     'notes': 'fix: commits in /repo are listed in known_findings.json (status fixed). Exit codes: 0 held, 1 VIOLATION, 2 infrastructure/timeout.',
